@@ -11,10 +11,12 @@ option is switched on), and copy() and a pickle round trip give an automaton of 
 with an identical definition.
 
 What is proved here (about the model, for all inputs):
-  * `freeze_value` (automata/base/utils.py) on a model of Python values `PyVal`: the result
-    contains no mutable container for every supported value, has the same abstract value, and
-    freezing is idempotent — hence what `Automaton.__init__` stores in the default
-    configuration is immutable and equal in value to the arguments;
+  * `freeze_value` (automata/base/utils.py, as of /repo fix 3900daf: tuples are entered) on a
+    model of Python values `PyVal`: the result contains no mutable container for every value
+    Python can build (`supported`: dictionary keys and set / frozenset elements are hashable —
+    anything else raises `TypeError: unhashable type` before `freeze_value` is reached), has the
+    same abstract value, and freezing is idempotent — hence what `Automaton.__init__` stores in
+    the default configuration is immutable and equal in value to the arguments;
   * `__setattr__` / `__delattr__` always raise `AttributeError`;
   * for each of the eight classes the public `__slots__` are exactly the `__init__` parameters
     and all of them are handed to `Automaton.__init__` (evaluated on the tables regenerated
@@ -36,10 +38,15 @@ open AV AV.VA AV.VA.PyVal AV.VA.Obj
 
 /-! ## `freeze_value` -/
 
-/-- After freezing a supported value no `dict`, `set` or `list` object is left anywhere inside
-it (keys, tuple members and frozenset members included).  `supported`: tuples, frozensets and
-dictionary keys / set elements hold only immutable members — which Python itself enforces for
-keys and set elements (hashability); mutable containers may nest in each other arbitrarily. -/
+/-- After freezing no `dict`, `set` or `list` object is left anywhere inside the value (keys,
+tuple members and frozenset members included).  `supported` is no restriction on real inputs:
+it says that every dictionary key and every set / frozenset element is hashable (on the model:
+`isFrozen` — an unhashable `dict` / `set` / `list` nowhere inside it), which Python enforces when
+the dict / set / frozenset is *built* (`{[1]: 2}`, `{[1]}`, `frozenset([[1]])`, `{(1, [2]): 3}`
+raise `TypeError: unhashable type`).  Lists, tuples, dict / frozendict values may hold anything
+and nest arbitrarily — in particular a list inside a tuple (the MNTM result
+`('q1', [['1', 'R']])`, the DPDA result `('q1', ['1', '0'])`) is covered since fix 3900daf.
+What the model does not see: a user-defined hashable object (`other`) with mutable content. -/
 theorem C18_freeze_immutable (v : PyVal) (h : v.supported = true) : (freeze v).isFrozen = true :=
   isFrozen_freeze v h
 
@@ -54,18 +61,50 @@ theorem C18_freeze_idem (v : PyVal) : freeze (freeze v) = freeze v := freeze_ide
 theorem C18_freeze_fixes_immutable (v : PyVal) (h : v.isFrozen = true) : freeze v = v :=
   freeze_of_isFrozen v h
 
-/-- Why `supported` is needed: the code does not look inside tuples, so a list placed inside a
-tuple survives (`freeze_value((1, [2]))` is `(1, [2])`).  This is the boundary of the property's
-domain, not a case the theorem above covers. -/
-theorem C18_freeze_does_not_enter_tuples :
-    (freeze (.tuple [.int 1, .list [.int 2]])).isFrozen = false := rfl
+/-- Tuples are entered (fix 3900daf): `freeze (x₁, …, xₙ) = (freeze x₁, …, freeze xₙ)` — the
+same as for a list. -/
+theorem C18_freeze_enters_tuples (xs : List PyVal) :
+    freeze (.tuple xs) = .tuple (xs.map freeze) ∧ freeze (.tuple xs) = freeze (.list xs) := by
+  simp only [freeze, freezeList_eq_map, and_self]
+
+/-- … so a list placed inside a tuple is frozen: `freeze_value((1, [2]))` is `(1, (2,))`, and
+the MNTM result `('q1', [['1', 'R']])` becomes `('q1', (('1', 'R'),))`.  (Before fix 3900daf
+the code returned tuples as they were and `C18_freeze_does_not_enter_tuples` stated the
+opposite here.) -/
+theorem C18_freeze_tuple_holding_list :
+    freeze (.tuple [.int 1, .list [.int 2]]) = .tuple [.int 1, .tuple [.int 2]] ∧
+    freeze (.tuple [.str "q1", .list [.list [.str "1", .str "R"]]]) =
+      .tuple [.str "q1", .tuple [.tuple [.str "1", .str "R"]]] ∧
+    (freeze (.tuple [.str "q1", .list [.list [.str "1", .str "R"]]])).isFrozen = true :=
+  ⟨rfl, rfl, rfl⟩
+
+/-- Frozensets are still returned without looking inside, and dictionary keys are never touched.
+That is harmless exactly because of hashability: a frozenset whose elements are hashable
+(`isFrozenList`) is already immutable, and the same holds for keys. -/
+theorem C18_freeze_frozenset (xs : List PyVal) :
+    freeze (.frozenset xs) = .frozenset xs ∧
+    (isFrozenList xs = true → (freeze (.frozenset xs)).isFrozen = true) :=
+  ⟨rfl, fun h => by simp only [freeze, isFrozen, h]⟩
+
+/-- `supported` holds of every immutable (= hashable) value, and it is exactly "keys and set /
+frozenset elements hashable": the only way to fail it is an unhashable key or element. -/
+theorem C18_supported_of_immutable (v : PyVal) (h : v.isFrozen = true) : v.supported = true :=
+  supported_of_isFrozen v h
+
+/-- The excluded values are the ones Python refuses to build: a list as a set element / as a
+dictionary key, a tuple holding a list as a key. -/
+example : (PyVal.set [.list [.int 1]]).supported = false ∧
+    (PyVal.dict [(.list [.int 1], .int 2)]).supported = false ∧
+    (PyVal.frozenset [.list [.int 1]]).supported = false ∧
+    (PyVal.dict [(.tuple [.int 1, .list [.int 2]], .int 3)]).supported = false := ⟨rfl, rfl, rfl, rfl⟩
 
 /-- The regenerated shape of `freeze_value`: which `isinstance` branches exist, in which order,
-and that the dict / set / list branches recurse (the model `PyVal.freeze` mirrors exactly
-this). -/
+and that the dict / set / list-or-tuple branches recurse (the model `PyVal.freeze` mirrors
+exactly this). -/
 theorem C18_freeze_source_shape :
     Gen.Validate.freezeBranches =
-      [("str,int", "same"), ("dict", "frozendict+rec"), ("set", "frozenset+rec"), ("list", "tuple+rec")] := by
+      [("str,int", "same"), ("dict", "frozendict+rec"), ("set", "frozenset+rec"),
+       ("list,tuple", "tuple+rec")] := by
   decide
 
 /-- Non-vacuity: an MNTM-style transition table written with nested lists
@@ -78,6 +117,16 @@ example :
       .tuple [.tuple [.str "q0", .tuple [.tuple [.str "1", .str "R"]]]])] ∧
     (freeze v).isFrozen = true := ⟨rfl, rfl, rfl⟩
 
+/-- Non-vacuity: the reviewer's MNTM table `{'q0': {('1',): [('q1', [['1', 'R']])]}}` — a tuple
+holding a list — is supported and freezes to an immutable value. -/
+example :
+    let v : PyVal := .dict [(.str "q0", .dict [(.tuple [.str "1"],
+      .list [.tuple [.str "q1", .list [.list [.str "1", .str "R"]]]])])]
+    v.supported = true ∧
+    freeze v = .frozendict [(.str "q0", .frozendict [(.tuple [.str "1"],
+      .tuple [.tuple [.str "q1", .tuple [.tuple [.str "1", .str "R"]]]])])] ∧
+    (freeze v).isFrozen = true := ⟨rfl, rfl, rfl⟩
+
 /-- Non-vacuity: an NFA transition table `{"q": {"": {"p"}, "a": set()}}`. -/
 example :
     freeze (.dict [(.str "q", .dict [(.str "", .set [.str "p"]), (.str "a", .set [])])]) =
@@ -86,10 +135,11 @@ example :
 
 /-! ## what the constructor stores -/
 
-/-- In the default configuration every stored attribute is immutable (for supported
-arguments): no nested set, map or list can be written to afterwards, and — the stored value
-being a function of the argument's value at construction time — later mutation of the
-argument objects cannot reach it. -/
+/-- In the default configuration every stored attribute is immutable (for every argument
+Python can build: keys and set elements hashable, see `C18_freeze_immutable`): no nested set,
+map or list can be written to afterwards, and — the stored value being a function of the
+argument's value at construction time — later mutation of the argument objects cannot reach
+it. -/
 theorem C18_stored_immutable (kwargs : List (String × PyVal))
     (h : ∀ kv ∈ kwargs, kv.2.supported = true) :
     ∀ kv ∈ storeKwargs false kwargs, kv.2.isFrozen = true := by
@@ -110,13 +160,46 @@ theorem C18_stored_value (allowMutable : Bool) (kwargs : List (String × PyVal))
 
 /-! ## attribute protocol -/
 
-/-- Setting or deleting any attribute of any automaton raises `AttributeError`. -/
-theorem C18_setattr_delattr (o : Inst) (name : String) (v : PyVal) :
-    o.setattr name v = .error (.py .attributeError) ∧ o.delattr name = .error (.py .attributeError) :=
-  ⟨rfl, rfl⟩
+/-- The attribute hooks as the source has them (regenerated from the AST of every class of the
+package that derives from `Automaton`): `__setattr__` and `__delattr__` are defined by
+`Automaton` only — no subclass overrides them — and the body of each (docstring aside) is the
+single statement `raise AttributeError(...)`: an unconditional raise.  A raise placed under an
+`if`, an added statement or an override changes the regenerated table and breaks this theorem
+(and `C18_setattr_delattr`, whose model reads the same table). -/
+theorem C18_attr_hooks_unconditional :
+    Gen.Object.attrHooks =
+      [("Automaton", "__setattr__", "raise AttributeError"),
+       ("Automaton", "__delattr__", "raise AttributeError")] ∧
+    hookShape "__setattr__" = .raisesAttributeError ∧ hookShape "__delattr__" = .raisesAttributeError ∧
+    (∀ cls ∈ classes, cls ∈ Gen.Object.automatonClasses) := by
+  decide
 
-/-- Tie to the source: `__setattr__` and `__delattr__` are defined by `Automaton` only (no
-subclass overrides them) and each raises `AttributeError` (regenerated raise sites). -/
+/-- Setting or deleting any attribute of any automaton raises `AttributeError`.  (Not true by
+definition: `Inst.setattr` / `Inst.delattr` raise only if the regenerated body shape of the hook
+is an unconditional `raise AttributeError`; otherwise they rebind / delete the attribute.) -/
+theorem C18_setattr_delattr (o : Inst) (name : String) (v : PyVal) :
+    o.setattr name v = .error (.py .attributeError) ∧ o.delattr name = .error (.py .attributeError) := by
+  have h1 : hookShape "__setattr__" = .raisesAttributeError := by decide
+  have h2 : hookShape "__delattr__" = .raisesAttributeError := by decide
+  simp only [Inst.setattr, Inst.delattr, h1, h2, and_self]
+
+/-- Where the library itself goes around the hooks (`object.__setattr__(self, …)` /
+`object.__delattr__(self, …)`, regenerated from every class deriving from `Automaton`): outside
+the constructors only *literal private* names are bound (at present: `DFA.clear_cache` resets
+the two cache slots `_word_cache` / `_count_cache`, which are not part of the definition), and
+the only constructor doing it is `Automaton.__init__` (the storing loop).  So after
+construction no method of the library rebinds or deletes a definition attribute.  (A new site
+with a public or computed name breaks this theorem.) -/
+theorem C18_hook_bypass_sites :
+    (∀ t ∈ Gen.Object.objectSetattrSites,
+      (t.1 = "Automaton" ∧ t.2.1 = "__init__" ∧ t.2.2.1 = "__setattr__") ∨
+      (t.2.1 ≠ "__init__" ∧ ∀ n ∈ t.2.2.2, isPublic n = false)) ∧
+    (∃ t ∈ Gen.Object.objectSetattrSites, t.1 = "Automaton" ∧ t.2.1 = "__init__") := by
+  decide
+
+/-- Tie to the source (raise sites): `__setattr__` and `__delattr__` are defined by `Automaton`
+only (no subclass overrides them) and each raises `AttributeError` (regenerated raise sites;
+`C18_attr_hooks_unconditional` adds that the raise is the whole body). -/
 theorem C18_attr_hooks_source :
     Gen.Validate.raiseSites.filter (fun t => t.2.1 == "__setattr__" || t.2.1 == "__delattr__") =
       [("Automaton", "__setattr__", ["AttributeError"]), ("Automaton", "__delattr__", ["AttributeError"])] := by
@@ -138,8 +221,16 @@ theorem C18_classes : classes = ["DFA", "NFA", "GNFA", "DPDA", "NPDA", "DTM", "N
 /-- The shape of automata/base/automaton.py that the object model mirrors (regenerated):
 `input_parameters` iterates `__slots__` skipping names that start with `_`, `copy()` is
 `self.__class__(**self.input_parameters)`, `__getstate__` returns `input_parameters`,
-`__setstate__` calls `__init__`, `__init__` freezes unless the option allows mutable automata. -/
-theorem C18_automaton_source_shape : Gen.Validate.automatonFacts.all (fun f => f.2) = true := by
+`__setstate__` calls `__init__`, `__init__` freezes unless the option allows mutable automata;
+the attribute hooks raise unconditionally; the constructors take keyword arguments only. -/
+theorem C18_automaton_source_shape :
+    Gen.Validate.automatonFacts.all (fun f => f.2) = true ∧
+    -- the bodies of `__setattr__` / `__delattr__` are a single unconditional `raise AttributeError(...)`
+    (Gen.Object.attrHooks.filter (fun t => t.1 == "Automaton")).map (fun t => (t.2.1, t.2.2)) =
+      [("__setattr__", "raise AttributeError"), ("__delattr__", "raise AttributeError")] ∧
+    -- every concrete `__init__` is `(self, *, …)`: arguments are bound by keyword only
+    Gen.Object.initKeywordOnly.all (fun f => f.2) = true ∧
+    Gen.Object.initKeywordOnly.map Prod.fst = classes := by
   decide
 
 /-- `copy()` of a constructed automaton succeeds and returns an object of the same class with
@@ -178,13 +269,89 @@ theorem C18_copy_roundtrip_across_options (am0 am1 : Bool) (cls : String) (hcls 
   intro s _
   simp [norm_fz]
 
+/-! ### copy() of a valid automaton passes the validation of its constructor
+
+`classInitV` / `copyV` are `classInit` / `copy` with `Automaton.__post_init__`: the stored
+definition is validated when `should_validate_automata` is on (GNFA: always).  They are built on
+`construct` (Model/Freeze.lean), the constructor of C19's option theorems (`C19_options*`), here
+applied to the keyword list of a concrete class.  `v cls` is the class's validator as a function
+of the abstract value of the definition — an arbitrary function: the theorems hold for every
+validator that reads the definition up to the kind of container (the typed validators of C19 do:
+they test membership and equality of names only). -/
+
+/-- If `cls(**kwargs)` returns with validation due, the validator accepted the definition of
+the new object. -/
+theorem C18_constructed_valid (v : String → List (String × PyVal) → Res Unit) (sv am : Bool)
+    (cls : String) (hcls : cls ∈ classes) (kwargs : List (String × PyVal)) (a : Inst)
+    (h : classInitV v sv am cls kwargs = .ok a) (hdue : (sv || alwaysValidates cls) = true) :
+    v cls (definitionOf a) = .ok () :=
+  (classInitV_ok_inv v sv am cls (tablesOk_all cls hcls) kwargs a h).2 hdue
+
+/-- `copy()` re-validates successfully: for an automaton `a = cls(**kwargs)` (built under any
+options) whose definition satisfies the validator, `a.copy()` — under any options, validation
+included — is constructed, has the same class and the same definition (abstract value of every
+attribute `validate()` reads, GNFA's derived `final_states` included), hence satisfies the
+validator again, and reports parameters equal in abstract value.  So no `copy()` of a valid
+automaton can raise a validation error, and none can smuggle an invalid definition past
+validation. -/
+theorem C18_copy_valid (v : String → List (String × PyVal) → Res Unit) (sv0 am0 sv1 am1 : Bool)
+    (cls : String) (hcls : cls ∈ classes) (kwargs : List (String × PyVal)) (a : Inst)
+    (h : classInitV v sv0 am0 cls kwargs = .ok a) (hvalid : v cls (definitionOf a) = .ok ()) :
+    ∃ b, copyV v sv1 am1 a = .ok b ∧ b.cls = a.cls ∧ definitionOf b = definitionOf a ∧
+      v cls (definitionOf b) = .ok () ∧
+      ∃ pa pb, inputParameters a = .ok pa ∧ inputParameters b = .ok pb ∧ absKw pb = absKw pa := by
+  have ht := tablesOk_all cls hcls
+  have hci := (classInitV_ok_inv v sv0 am0 cls ht kwargs a h).1
+  obtain ⟨b, hbV, hb, hdef⟩ := copyV_after_init v am0 sv1 am1 cls ht kwargs a hci hvalid
+  obtain ⟨b', pa, pb, hb', hc', hpa, hpb, hn⟩ :=
+    C18_copy_roundtrip_across_options am0 am1 cls hcls kwargs a hci
+  have hbb : b' = b := by rw [hb] at hb'; exact (Except.ok.inj hb').symm
+  subst hbb
+  exact ⟨b', hbV, hc', hdef, by rw [hdef]; exact hvalid, pa, pb, hpa, hpb, hn⟩
+
+/-- In particular with validation on at both ends no hypothesis on the definition is needed:
+whatever the constructor accepted, `copy()` (and a pickle round trip, which is the same call of
+`__init__`) accepts. -/
+theorem C18_copy_valid_validated (v : String → List (String × PyVal) → Res Unit) (am0 sv1 am1 : Bool)
+    (cls : String) (hcls : cls ∈ classes) (kwargs : List (String × PyVal)) (a : Inst)
+    (h : classInitV v true am0 cls kwargs = .ok a) :
+    ∃ b, copyV v sv1 am1 a = .ok b ∧ b.cls = a.cls ∧ definitionOf b = definitionOf a :=
+  let ⟨b, h1, h2, h3, _⟩ := C18_copy_valid v true am0 sv1 am1 cls hcls kwargs a h
+    (C18_constructed_valid v true am0 cls hcls kwargs a h rfl)
+  ⟨b, h1, h2, h3⟩
+
 /-- The reported parameters are exactly the constructor's: `input_parameters` of `cls(**kwargs)`
 lists the public slots, each with the stored form of the argument bound to it. -/
 theorem C18_input_parameters (allowMutable : Bool) (cls : String) (hcls : cls ∈ classes)
     (kwargs : List (String × PyVal)) (a : Inst) (h : classInit allowMutable cls kwargs = .ok a) :
     inputParameters a =
-      .ok ((publicSlots cls).map fun s => (s, fz allowMutable (boundVal kwargs s))) :=
+      .ok ((publicSlots cls).map fun s => (s, fz allowMutable (boundVal cls kwargs s))) :=
   (copy_after_init allowMutable allowMutable cls (tablesOk_all cls hcls) kwargs a h).1
+
+/-- The default values the model binds are the ones of the `__init__` signatures: `defaultOf`
+reads the table regenerated from the AST (at present `DFA(allow_partial=False)`,
+`DPDA / NPDA(acceptance_mode="both")`), nothing is written by hand, so a new or changed default
+changes the model at the next build and the NEW correspondence (family `default_param`) compares
+it with the real constructor.  What the theorems need from the table: it covers the eight
+classes; every default is a literal the model represents exactly (bool / int / str / None —
+not an opaque expression); every parameter with a default is a parameter and a public slot of
+its class, so `copy()` / unpickling always pass it explicitly and a default is never applied a
+second time. -/
+theorem C18_init_defaults :
+    Gen.Object.initDefaults.map Prod.fst = classes ∧
+    (∀ cd ∈ Gen.Object.initDefaults, ∀ pd ∈ cd.2,
+      (match pd.2 with | .other _ => false | _ => true) = true ∧
+      pd.1 ∈ publicSlots cd.1 ∧ pd.1 ∈ initParamsOf cd.1) := by
+  decide
+
+/-- The attributes a constructor binds besides the ones handed to `Automaton.__init__` (regenerated:
+`object.__setattr__(self, "<name>", …)` in `__init__` or in a method it calls on `self`; at present
+only `DFA.clear_cache`: `_word_cache = []`, `_count_cache = []`) are private slots of the class:
+none of them is reported by `input_parameters`, none is part of the definition. -/
+theorem C18_post_init_attrs :
+    Gen.Object.postInitAttrs.map Prod.fst = classes ∧
+    (∀ cls ∈ classes, ∀ kv ∈ extraAttrs cls, isPublic kv.1 = false ∧ kv.1 ∈ slotsOf cls) := by
+  decide
 
 /-! ### non-vacuity -/
 
@@ -199,7 +366,7 @@ example :
     (match classInit false "DFA" exDFA with
      | .ok a => a.cls == "DFA" && (a.attrs.map Prod.fst ==
           ["states", "input_symbols", "transitions", "initial_state", "final_states", "allow_partial",
-           "_count_cache", "_word_cache"])
+           "_word_cache", "_count_cache"])
      | .error _ => false) = true := by decide
 
 example :
@@ -222,5 +389,30 @@ example :
      | .ok a => a.attrs.map Prod.fst ==
          ["states", "input_symbols", "transitions", "initial_state", "final_state", "final_states"]
      | .error _ => false) = true := by decide
+
+/-- Non-vacuity / sanity of `classInitV`: a validator that rejects makes the constructor raise
+when validation is on and is not consulted when it is off — except for GNFA, which always
+validates; a validator that accepts lets construction and `copyV` through. -/
+def rejectAll : String → List (String × PyVal) → Res Unit := fun _ _ => .error (.lib .invalidStateError)
+def acceptAll : String → List (String × PyVal) → Res Unit := fun _ _ => .ok ()
+def exGNFA : List (String × PyVal) :=
+  [("states", .set [.int 0, .int 1]), ("input_symbols", .set []),
+   ("transitions", .dict [(.int 0, .dict [(.int 1, .other 0)])]), ("initial_state", .int 0),
+   ("final_state", .int 1)]
+
+example :
+    (match classInitV rejectAll true false "DFA" exDFA with
+      | .error (.lib .invalidStateError) => true | _ => false) = true ∧
+    (match classInitV rejectAll false false "DFA" exDFA with | .ok _ => true | _ => false) = true ∧
+    (match classInitV rejectAll false false "GNFA" exGNFA with
+      | .error (.lib .invalidStateError) => true | _ => false) = true ∧
+    alwaysValidates "GNFA" = true ∧ alwaysValidates "DFA" = false ∧
+    (match classInitV acceptAll true false "GNFA" exGNFA with
+      | .ok a => (match copyV acceptAll true true a with
+          | .ok b => b.cls == "GNFA" && (definitionOf b).map Prod.fst ==
+              ["states", "input_symbols", "transitions", "initial_state", "final_state", "final_states"]
+          | _ => false)
+      | _ => false) = true := by
+  decide
 
 end AV.Props.C18
